@@ -7,34 +7,37 @@ From GJ Require Import Base.Bytes Gen.Tables Model.Int Model.Compact Spec.Json
 Import ListNotations.
 Open Scope N_scope.
 
-(* 1. for EVERY byte string, Compact returns exactly the raw tokens of the RFC
-      8259 parse of the input (what encoding/json.Compact appends), or an error
-      when the input is not a JSON text; it never reads outside src ++ [NUL]
-      and never runs out of the fuel the model gives it *)
+(* the texts encoding/json's Compact and Indent take: RFC 8259 with at most
+   maxNestingDepth (10000, read from the source) levels of nesting *)
+Definition std_compact_language (data : list N) := parse_g (Some c_max_depth) allnum data.
+
+(* 1. for EVERY byte string, Compact returns exactly the raw tokens of that
+      parse of the input (what encoding/json.Compact appends), or an error
+      when there is none; it never reads outside src ++ [NUL] and never runs
+      out of the fuel the model gives it *)
 Theorem C18_compact_is_spec : forall data,
   compact_run false data =
-  match parse_json data with
+  match std_compact_language data with
   | Some (ts, _) => COk (render_compact ts)
   | None => CErr
   end.
 Proof. exact compact_run_spec. Qed.
 Print Assumptions C18_compact_is_spec.
 
-(* 2. soundness and completeness as corollaries *)
-Theorem C18_compact_accepts_iff_rfc : forall data,
-  (exists out, compact_run false data = COk out) <-> rfc_json data = true.
+(* 2. nothing outside RFC 8259 is accepted; success and failure are the only outcomes *)
+Theorem C18_compact_accepts_only_rfc : forall data out,
+  compact_run false data = COk out -> rfc_json data = true.
 Proof.
-  intro data. rewrite compact_run_spec. unfold rfc_json.
-  destruct (parse_json data) as [[ts rest]|]; split; intro H; try reflexivity; try discriminate.
-  - eexists; reflexivity.
-  - destruct H as [out H]; discriminate.
+  intros data out H. rewrite compact_run_spec in H. unfold rfc_json.
+  destruct (parse_g clim allnum data) as [r|] eqn:E; [|discriminate].
+  rewrite (parse_g_relax _ _ _ _ E). reflexivity.
 Qed.
-Print Assumptions C18_compact_accepts_iff_rfc.
+Print Assumptions C18_compact_accepts_only_rfc.
 
 Theorem C18_compact_total : forall data,
   compact_run false data <> CStuck /\ compact_run false data <> CFuel.
 Proof.
-  intro data. rewrite compact_run_spec. destruct (parse_json data) as [[ts rest]|]; split; discriminate.
+  intro data. rewrite compact_run_spec. destruct (parse_g clim allnum data) as [[ts rest]|]; split; discriminate.
 Qed.
 Print Assumptions C18_compact_total.
 
@@ -53,6 +56,8 @@ Example C18_ex_valid :
   compact_run false [32; 123; 34; 97; 34; 32; 58; 32; 91; 49; 44; 32; 50; 93; 125; 10]
   = COk [123; 34; 97; 34; 58; 91; 49; 44; 50; 93; 125].
 Proof. vm_compute. reflexivity. Qed.
+Example C18_limit : Z.of_nat c_max_depth = 10000%Z.
+Proof. reflexivity. Qed.
 Example C18_ex_invalid : compact_run false [48; 49] = CErr.
 Proof. vm_compute. reflexivity. Qed.
 Example C18_ex_indent :
